@@ -43,7 +43,10 @@ def handle (op : String) (c i : Json) : Except String (Json × String) := do
         let seq := match numberingOf little bnS with
           | .lsb0 => if little then start else flipN start
           | .msb0 => if little then flipN start else start
-        if !little && slS && seq + 1 < size then "ok" else "fail: rejected a representable position"
+        -- "rejected ... rather than stored": the signal keeps the position it had (the harness starts from 0)
+        let stored := J.keyD i "stored" (J.ofNat 0)
+        if stored != J.ofNat 0 then "fail: a rejected position was stored all the same"
+        else if !little && slS && seq + 1 < size then "ok" else "fail: rejected a representable position"
       | some x =>
         if x < 0 then "fail: stored negative position" else
         let n := x.toNat
